@@ -46,7 +46,7 @@ def gen_cases(tier, seed):
         cases.append({"crystal": {"name": name, "order": ["asis", "random"][rng.integers(2)], "order_seed": int(rng.integers(100))},
                       "smat": smats[rng.integers(len(smats))], "pmat": ["P", "centring"][rng.integers(2)], "nac": nac, "full": bool(rng.integers(2)),
                       "seed": int(rng.integers(10 ** 6)), "_variant": ["omp", "serial"][(i // 3) % 2], "_cost": 3 if nac == "gonze" else 1,
-                      "factor": [None, None, 1.0, 521.47083, 108.97077][int(rng.integers(5))]})  # unit conversion factor: default (VASP, THz) | 1 | VASP->cm^-1 | QE
+                      "factor": [None, None, 1.0, 521.47083, 108.97077][int(rng.integers(5))], "unstable": bool(rng.integers(4) == 0)})  # unit conversion factor: default (VASP, THz) | 1 | VASP->cm^-1 | QE
     return cases
 
 
@@ -86,6 +86,9 @@ def run_case(c):
     fc = models.pair_fc(sc.cell, sc.scaled_positions, sc.symbols, cutoff=rng.uniform(3.4, 5.5))
     if np.abs(fc).max() < 1e-8:
         return {"skip": "no interaction"}
+    if c.get("unstable"):
+        # a dynamically unstable crystal (imaginary modes, reported as negative frequencies by every access path): difference of two spring models
+        fc = fc - 1.6 * models.pair_fc(sc.cell, sc.scaled_positions, sc.symbols, cutoff=3.2, r0=1.3)
     p2s = np.array(pr.p2s_map)
     from vlib.gen.layout import ARRAY_KINDS, relayout as _rl
 
@@ -96,7 +99,7 @@ def run_case(c):
         ph.nac_params = nacgen.random_nac(ph, rng, method=c["nac"])
     factor = ph.unit_conversion_factor
     nb = 3 * len(pr)
-    viol, obs = [], {"fclayout_" + fckind: 1, "factor_%s" % c.get("factor", "default"): 1}
+    viol, obs = [], {"fclayout_" + fckind: 1, "factor_%s" % c.get("factor", "default"): 1, "unstable_cases": int(bool(c.get("unstable")))}
     import phonopy._phonopy as phonoc
 
     build_is_omp = bool(phonoc.use_openmp())
